@@ -462,8 +462,15 @@ impl Rec {
 }
 
 impl Command<LogDev> for Rec {
+    /// `meta()` is documented as a help / autocompletion hint, "not actually binding in any way":
+    /// whatever it says, both forms of every recorder leaf are implemented and must be dispatched.
     fn meta(&self) -> CommandTypeMeta {
-        CommandTypeMeta::Both
+        match self.id % 4 {
+            0 => CommandTypeMeta::Both,
+            1 => CommandTypeMeta::Unknown,
+            2 => CommandTypeMeta::NoQuery,
+            _ => CommandTypeMeta::QueryOnly,
+        }
     }
     fn event(&self, device: &mut LogDev, _context: &mut Context, params: Parameters) -> Result<()> {
         self.run(device, params, None, false)
